@@ -35,7 +35,8 @@ ASSUMPTIONS = [
 ]
 FLOORS = {"triples_compared": (6000, 100000), "fail_together": (1500, 30000), "succeed_together": (2000, 40000), "warm_triples": (2000, 40000),
           "partial_body_cases": (200, 4000), "validate_keys_body_checks": (6000, 100000),
-          "datasetclass_triples": (1000, 20000), "datasetclass_fail_together": (150, 3000)}
+          "datasetclass_triples": (1000, 20000), "datasetclass_fail_together": (150, 3000),
+          "pipeline_triples": (1000, 20000), "pipeline_fail_together": (100, 2000)}
 SHARDS_QUICK = 4
 FEATURES = {"domains": False, "allopts": False}
 
@@ -225,10 +226,42 @@ def datasetclass_triples(ctx, i):
         ctx.nontrivial(spec_hash(["dc", sorted(members.items()), o]))
 
 
+def pipeline_triples(ctx, i):
+    """Multi-step pipelines with option-valued step parameters (some required), alone and applied to a source with
+    >>: validate, keys and evaluate succeed or fail together (steps are total)."""
+    from labrea import Option
+    from labrea.pipeline import Pipeline
+
+    from .c13 import OPTIONS, STEP_NAMES, make_steps
+
+    r = case_rng(ctx, ("pipe", i))
+    table = make_steps()
+    names = [r.choice(STEP_NAMES) for _ in range(r.choice([1, 2, 2, 3, 4]))]
+    pipe = Pipeline()
+    for n in names:
+        pipe = pipe + table[n][0]()
+    o = copy.deepcopy(r.choice(OPTIONS))
+    for subject, label in ((pipe, "pipeline"), (Option("X0", ("x",)) >> pipe, "source >> pipeline")):
+        res = {op: observe(getattr(subject, op), copy.deepcopy(o)) for op in ("validate", "keys", "evaluate")}
+        ctx.evaluations += 3
+        ctx.count("pipeline_triples")
+        bits = {k: v[0] == "ok" for k, v in res.items()}
+        if len(set(bits.values())) != 1:
+            ctx.violation("operations-disagree", f"{label} of steps {names} on {short(o)}: validate {short(res['validate'], 60)} / keys {short(res['keys'], 60)} / evaluate {short(res['evaluate'], 60)}",
+                          {"family": "pipeline", "case": i, "shard": ctx.shard, "shards": ctx.shards, "steps": names, "options": repr(o)})
+            return
+        if not bits["evaluate"]:
+            ctx.count("pipeline_fail_together")
+        if len(names) >= 2:
+            ctx.nontrivial(spec_hash(["pipe", names, repr(o), label]))
+
+
 def run(ctx):
     rng = ctx.rng
     for i in range(ctx.n(300, 6000)):
         datasetclass_triples(ctx, i)
+    for i in range(ctx.n(600, 12000)):
+        pipeline_triples(ctx, i)
     if ctx.shard == 0:
         known_finding_reproducer(ctx)
         coalesce_reproducer(ctx)
@@ -266,7 +299,10 @@ def run(ctx):
 
 def replay(ctx, rep):
     w = rep["witness"]
-    if w.get("family") == "datasetclass":
+    if w.get("family") == "pipeline":
+        ctx.shard, ctx.shards = w.get("shard", 0), w.get("shards", 1)
+        pipeline_triples(ctx, w["case"])
+    elif w.get("family") == "datasetclass":
         ctx.shard, ctx.shards = w.get("shard", 0), w.get("shards", 1)
         datasetclass_triples(ctx, w["case"])
     elif "program" in w:
